@@ -44,7 +44,9 @@ _BT = {'Buildable': fdl.Buildable, 'Config': fdl.Config, 'Partial': fdl.Partial}
 def strategy_(draw, tier):
   recipe = draw(dags.dag(
       max_nodes=10, min_nodes=3, tags=True, bts=('Config', 'Config', 'Partial'),
-      kinds=['B', 'B', 'B', 'B', 'list', 'tuple', 'dict', 'nt', 'Bpo'],
+      kinds=['B', 'B', 'B', 'B', 'list', 'tuple', 'dict', 'nt', 'Bpo',
+             # further node kinds of the shared generator that this check's oracle handles (each once)
+             'TV', 'ddict', 'mdict', 'kdict', 'set', 'fset', 'ltuple', 'ntuple', 'Bpos', 'Bann', 'Bmut', 'Bmut1', 'Bmutnest', 'Bpo3', 'Bdc', 'Bempty', 'AFP', 'odict', 'dcinst', 'Bclash', 'Bdictcfg'],
       fns=['things:f2', 'things:Base', 'things:Mid', 'things:LeafCls', 'things:Other', 'things:h1',
            'things:BaseCM.make', 'things:SubCM.make'],
       root_kinds=['B'], p_alias=0.8, allow_copyof=draw(st.booleans())))
